@@ -190,7 +190,7 @@ def canon_tmp(st):
 
 # ------------------------------------------------------------------ fault sites
 
-SITE_KINDS = {"read", "opensrc", "mktmp", "openw", "rename", "remove", "mkdirs", "opena", "openrw", "flock"}
+SITE_KINDS = {"read", "opensrc", "mktmp", "openw", "rename", "remove", "mkdirs", "opena", "openrw", "flock", "foreign"}
 
 
 class FaultPlan:
